@@ -357,9 +357,7 @@ func runC13app(hist []chain.Block, pruning [2]int64, st *c13stats) (out []*c12re
 					// the commit is complete: Tendermint moves on
 					d2.Height, d2.Time = h, recs[bi+1].tm.Time
 					d2.PrevSet, d2.CurSet, d2.NextSet = recs[bi+1].tm.PrevSet, recs[bi+1].tm.CurSet, recs[bi+1].tm.NextSet
-					for k, v := range recs[bi+1].tm.Indexed {
-						d2.Index.Add([]byte(k), v)
-					}
+					d2.Index.Restore(recs[bi+1].tm)
 					next = bi + 1
 				}
 				for j := next; j <= bi+1 && j < len(ext); j++ {
